@@ -131,6 +131,18 @@ func ruleSigDoc(r *core.Run) {
 				if mc, ok := v.(*ssa.MakeClosure); ok {
 					clo, _ = mc.Fn.(*ssa.Function)
 				}
+				// the lookup function may be produced by a helper that returns the closure
+				if hc, ok := v.(*ssa.Call); ok {
+					if h := hc.Call.StaticCallee(); h != nil && len(h.Blocks) > 0 {
+						for _, hb := range h.Blocks {
+							if ret, ok := hb.Instrs[len(hb.Instrs)-1].(*ssa.Return); ok && len(ret.Results) == 1 {
+								if mc, ok := ret.Results[0].(*ssa.MakeClosure); ok {
+									clo, _ = mc.Fn.(*ssa.Function)
+								}
+							}
+						}
+					}
+				}
 			}
 		}
 	}
